@@ -233,8 +233,8 @@ def run(tier, seed, replay=None):
         })
         verdict.assumptions += [
             "'all they depend on' = rule-level assertions/expressions (policy), subject, rendered payload and values, "
-            "presented credential, mechanism identity/endpoint; reuse across forwarded header/cookie VALUES and "
-            "Outputs used only in endpoint templates is left open",
+            "presented credential, mechanism identity/endpoint, values of the forwarded request headers and cookies; "
+            "reuse across Outputs used only in endpoint templates is left open",
             "remote systems are local test servers whose answer is a digest of everything they receive",
         ]
         return verdict.finish()
